@@ -192,12 +192,14 @@ Variable segcore : seg_row -> vec.
 Definition seg_geom_eq (r r' : seg_row) : Prop :=
   cs_r r = cs_r r' /\ cs_phi r = cs_phi r' /\ cs_phio2 r = cs_phio2 r' /\ cs_c r = cs_c r' /\ cs_s r = cs_s r' /\
   cs_z r = cs_z r' /\ cs_r1 r = cs_r1 r' /\ cs_r2 r = cs_r2 r' /\ cs_h r = cs_h r' /\
-  cs_phi1r r = cs_phi1r r' /\ cs_phi2r r = cs_phi2r r'.
+  cs_phi1r r = cs_phi1r r' /\ cs_phi2r r = cs_phi2r r' /\
+  cs_phi1 r = cs_phi1 r' /\ cs_phi2 r = cs_phi2 r' /\ cs_red1 r = cs_red1 r' /\ cs_red2 r = cs_red2 r' /\
+  cs_pi r = cs_pi r'.
 
 Lemma seg_masks_geom r r' : seg_geom_eq r r' -> seg_masks r = seg_masks r'.
 Proof.
-  intros (E1 & E2 & E3 & E4 & E5 & E6 & E7 & E8 & E9 & E10 & E11). unfold seg_masks.
-  rewrite E1, E2, E3, E6, E7, E8, E9, E10, E11. reflexivity.
+  intros (E1 & E2 & E3 & E4 & E5 & E6 & E7 & E8 & E9 & E10 & E11 & E12 & E13 & E14 & E15 & E16). unfold seg_masks.
+  rewrite E1, E2, E3, E6, E7, E8, E9, E10, E11, E12, E13, E14, E15, E16. reflexivity.
 Qed.
 
 Theorem segment_row_wrapper_linear mu0 f any_off (r12 r1 r2 : seg_row) a b :
